@@ -276,7 +276,8 @@ func (s *PfcpServer) sendReqTo(msg message.Message, addr net.Addr) error {
 		return errors.Errorf("sendReqTo: invalid req type(%d)", msg.MessageType())
 	}
 
-	txtr := NewTxTransaction(s, addr, s.txSeq)
+	// the PFCP sequence number is 24 bits wide: key the transaction by the value on the wire
+	txtr := NewTxTransaction(s, addr, s.txSeq&0xffffff)
 	s.txSeq++
 	s.txTrans[txtr.id] = txtr
 
